@@ -284,7 +284,7 @@ class Repo:
                 canonicalise_guards(tree)
                 canonicalise_quantifiers(tree)
                 canonicalise_filtered_loops(tree)
-                if os.environ.get("AGILINT_IFEXP", "0") != "0":
+                if os.environ.get("AGILINT_IFEXP", "1") != "0":
                     canonicalise_conditional_assignments(tree)
         # functions / methods defined exactly once in the package: a call `f(...)`, `self.f(...)`, `Cls.f(...)` of such a name denotes that definition
         defs_by_name: Dict[str, List[ast.AST]] = {}
